@@ -192,20 +192,22 @@ PROPERTIES = {
         "kani": ["transc::const_values", "transc::exp_i9f23", "transc::sin_i9f23", "transc::cos_i9f23", "transc::cos_i32f32"],
         "kani_thorough": ["transc::sqrt_i9f23", "transc::log2_i9f23", "transc::ln_i9f23", "transc::sqrt_u9f23", "transc::tan_i9f23",
                           "transc::sin_i32f32", "transc::sin_i64f64", "transc::exp_i32f32"],
-        "explanation": "sqrt (Newton-loop invariant), exp, pow, powi, ln, log2 (unit transc) and sin, cos (unit trig: exact range reduction, folding into "
-                       "[-pi/2, pi/2], cos for |x| <= 200) verified (Verus) as written, generic over every supported type, against trait-level "
+        "explanation": "sqrt (Newton-loop invariant), exp, pow, powi, ln, log2 (unit transc) and sin, cos, cordic_rotation (unit trig: exact range reduction, folding into "
+                       "[-pi/2, pi/2], cos for |x| <= 200; CORDIC with the invariant max(|x|, |y|) <= cbound(i) < 8 and |z| <= 2 + i, R18) verified (Verus) as written, generic over every supported type, against trait-level "
                        "contracts of Fixed: no panic-class obligation remains, Err for non-positive logarithms; the conventions 0^y, x^0, x^1 of "
                        "pow / powi are postconditions.  log2_inner and rs (unit log2inner, R16) verified generic over every supported type: both loops "
                        "with invariants (integer-part loop: x < 2^(w-1-count) + 1; fraction loop: 1 <= x <= 2, accumulator below (count+1) 2^i), no "
-                       "panic-class obligation left, result >= 0 — the contract log2 / ln / pow rely on.  tan and cordic_rotation (iterator adapters) by "
-                       "Kani on I9F23 (whole domain resp. |x| <= 200) and on I32F32 / I64F64 for |x| <= 200",
-        "not_covered": ["tan / cordic_rotation (iterator adapters) for types other than I9F23, I32F32, I64F64"],
+                       "panic-class obligation left, result >= 0 — the contract log2 / ln / pow rely on.  tan (its divisor 1 + cos 2x is non-zero only by an accuracy argument) by "
+                       "Kani on I9F23 (the stated domain); Kani re-checks sin / cos / sqrt / log2 / ln / exp bit-precisely on I9F23 and sin / cos / exp on I32F32 / I64F64",
+        "not_covered": ["tan for types other than I9F23"],
         "assumptions": ["trait-level contracts of Fixed / FixedSigned are the statements proved for the inherent methods in units nofrac / fracops; "
                         "the trait_delegate! forwarders are not verified",
                         "axioms ax_from_const, ax_from_src, ax_cmp_const (conversions from the I9F23 constants are lossless, cross-type comparison is exact: C04 / C03)",
                         "log2_inner contract (result >= 0 for operand >= 1) is assumed in unit transc and proved in unit log2inner (one contract text, contracts/log2inner.inc)",
                         "axiom ax_bits_ops: D::Bits is the primitive integer behind D, its `+=`, `<<=`, `|=` have Rust's checked semantics (same trust as the prelude specs of core integer methods)",
-                        "R16: `for _i in (0..n).rev()` with an unused loop variable is rendered `for _i in 0..n`"],
+                        "R16: `for _i in (0..n).rev()` with an unused loop variable is rendered `for _i in 0..n`; R18: `for (a, i) in TABLE.iter().cloned().zip(0..)` is rendered as an "
+                        "indexed loop over the table with a counter i; R19: the table is an `exec const` (initialiser verbatim); the table VALUES are not used by the proof "
+                        "(any U0F128 angle is at most one after lossy_from)"],
     },
     "C13": {
         "level": "proof",
@@ -238,8 +240,7 @@ PROPERTIES = {
                        "(log2_inner: both loops together at most 2 w + 2, the integer-part loop by a halving invariant); "
                        "while / loop loops get `decreases bound - vticks`.  ln, log2, pow, cos have no loops of their own.  Kani: every harness "
                        "reads the hook iteration counter after the call and asserts ticks <= 4 * width + 64 (loops closed by unwinding assertions)",
-        "not_covered": ["cordic_rotation (iterator adapters): iteration count by Kani on I9F23 / I32F32 / I64F64 only, assumed (25) in unit trig; log2_inner's own "
-                        "counter is bounded by 2 w + 2 in unit log2inner, but the counter of a caller (log2, ln, pow) includes a callee's loops only where the template adds them at the call site"],
+        "not_covered": ["log2_inner's own counter is bounded by 2 w + 2 in unit log2inner and cordic_rotation's by 25 in unit trig (added at sin's call site), but the counter of a caller (log2, ln, pow) includes a callee's loops only where the template adds them at the call site"],
     },
     "C18": {
         "level": "proof",
